@@ -53,6 +53,10 @@ class EFLRSetsDict(defaultdict):
             An EFLRSet instance of given subtype and name, registered in the structure.
         """
 
+        if not set_name:
+            # an empty name is no name: such a set is written without a name, so it must be the one registered as unnamed
+            set_name = None
+
         # dict mapping set names on EFLRSet (subclass) instances
         eflr_set_dict: dict[Union[str, None], AnyEFLRSet] = self[eflr_set_type]
 
